@@ -477,7 +477,7 @@ private:
 		mCrashTab = static_cast<volatile uint64_t*>(mmap(nullptr, sizeof(uint64_t) * Ctx::kCrashTab, PROT_READ | PROT_WRITE, MAP_SHARED | MAP_ANONYMOUS, -1, 0));
 		struct Crash { std::string kind, sig, desc, log; std::vector<int> choices; int budget; };
 		std::vector<Crash> crashes; bool deadlineHit = false; int completedBudget = -1;
-		uint64_t totExec = 0, totCp = 0, totTrans = 0; int maxDepth = 0; uint64_t restarts = 0;
+		uint64_t totExec = 0, totCp = 0, totTrans = 0; int maxDepth = 0; uint64_t restarts = 0; bool restartCapHit = false;
 		for (int budget = 0; budget <= mCfg.max_dev && !deadlineHit; ++budget) {
 			memset(mSlots, 0, sizeof(Slot) * MAXW);
 			std::vector<pid_t> pid(nw, 0); std::vector<uint64_t> lastBeat(nw, 0); std::vector<double> lastChange(nw, now()); std::vector<int> stallRetries(nw, 0);
@@ -540,7 +540,8 @@ private:
 					if (cr.kind == "signal6" && cr.log.find("NONDETERMINISM") != std::string::npos) cr.kind = "nondeterminism";
 					if (uint64_t rk = mSlots[w].risk) { for (size_t i = 0, h = static_cast<size_t>(mix(rk)) & (Ctx::kCrashTab - 1); i < 64; ++i, h = (h + 1) & (Ctx::kCrashTab - 1)) { if (mCrashTab[h] == rk) break; if (mCrashTab[h] == 0) { mCrashTab[h] = rk; break; } } }
 					crashes.push_back(cr); ++restarts;
-					if (d == 0 || restarts > 20000) { fprintf(stderr, "bsx: worker %d died before its first choice or too many restarts (%s)\n%s\n", w, cr.kind.c_str(), cr.log.c_str()); continue; }
+					// A worker that cannot be resumed leaves its part of the space unexplored: that is reported (restart_cap_hit) and makes the run non-exhaustive.
+					if (d == 0 || restarts > 2000000) { restartCapHit = true; fprintf(stderr, "bsx: worker %d died before its first choice or too many restarts (%s)\n%s\n", w, cr.kind.c_str(), cr.log.c_str()); continue; }
 					mResumeArity = ar; mSlots[w].done = 0;
 					spawn(w, cr.choices, true); ++live;
 				}
@@ -582,8 +583,8 @@ private:
 		fprintf(o, "{\"property\":\"%s\",\"tier\":\"%s\",\"seed\":%llu,\"executions\":%llu,\"choice_points\":%llu,\"transitions\":%llu,\"max_depth\":%d,",
 			mProp, mTier.c_str(), static_cast<unsigned long long>(mSeed), static_cast<unsigned long long>(totExec), static_cast<unsigned long long>(totCp), static_cast<unsigned long long>(totTrans), maxDepth);
 		fprintf(o, "\"aux\":%zu,", axs.size());
-		fprintf(o, "\"distinct_outcomes\":%zu,\"distinct_nontrivial\":%zu,\"states\":%zu,\"max_dev\":%d,\"completed_dev_bound\":%d,\"deadline_hit\":%s,\"deadline_s\":%g,\"workers\":%d,\"restarts\":%llu,\"spurious_stalls\":%llu,\"wall_s\":%.2f,",
-			outs.size(), nts.size(), sts.size(), mCfg.max_dev, completedBudget, deadlineHit ? "true" : "false", mCfg.deadline_s, nw, static_cast<unsigned long long>(restarts), static_cast<unsigned long long>(spuriousStalls), now() - mT0);
+		fprintf(o, "\"distinct_outcomes\":%zu,\"distinct_nontrivial\":%zu,\"states\":%zu,\"max_dev\":%d,\"completed_dev_bound\":%d,\"deadline_hit\":%s,\"restart_cap_hit\":%s,\"deadline_s\":%g,\"workers\":%d,\"restarts\":%llu,\"spurious_stalls\":%llu,\"wall_s\":%.2f,",
+			outs.size(), nts.size(), sts.size(), mCfg.max_dev, completedBudget, deadlineHit ? "true" : "false", restartCapHit ? "true" : "false", mCfg.deadline_s, nw, static_cast<unsigned long long>(restarts), static_cast<unsigned long long>(spuriousStalls), now() - mT0);
 		fprintf(o, "\"outcomes\":[");
 		for (size_t i = 0; i < outcomeNames.size(); ++i) fprintf(o, "%s\"%s\"", i ? "," : "", outcomeNames[i].c_str());
 		fprintf(o, "],\"samples\":[");
